@@ -37,6 +37,9 @@ def logical_configs():
     out['no-window-twice'] = [dict(window=None, region=region, streams={'temp': {'qartod': {'gross_range_test': gr}}}),
                               dict(window=None, region=region, streams={'sal': {'qartod': {'spike_test': sp}}})]
     out['windowed'] = [dict(window={'starting': 100, 'ending': 200}, region=None, streams={'temp': {'qartod': {'gross_range_test': gr}}})]
+    out['ending-only-window'] = [dict(window={'ending': 200}, region=None, streams={'temp': {'qartod': {'gross_range_test': gr}}})]
+    out['window-ending-first'] = [dict(window=collections.OrderedDict([('ending', 200), ('starting', 100)]), region=None, streams={'temp': {'qartod': {'gross_range_test': gr}}}),
+                                  dict(window={'starting': 200}, region=None, streams={'temp': {'qartod': {'spike_test': sp}}})]
     out['half-window-region'] = [dict(window={'starting': 100}, region=region, streams={'temp': {'qartod': {'gross_range_test': gr}}, 'sal': {'qartod': {'spike_test': sp}}})]
     out['two-contexts'] = [dict(window={'starting': 100, 'ending': 200}, region=None, streams={'temp': {'qartod': {'gross_range_test': gr}}}),
                            dict(window={'starting': 200, 'ending': 300}, region=region, streams={'temp': {'qartod': {'gross_range_test': {'fail_span': [0, 20]}, 'spike_test': sp}},
@@ -87,19 +90,29 @@ def carriers(mapping, simple_for_attrs=None):
     return out
 
 
-def variable_attr_dataset(streams):
-    """per-variable QC attributes (one test per result variable), the layout load_config_from_xarray rebuilds into a stream mapping"""
+def variable_attr_dataset(streams, order='grouped'):
+    """per-variable QC attributes (one test per result variable), the layout load_config_from_xarray rebuilds into a stream mapping.
+    order: how the result variables are laid out in the Dataset - grouped by target, interleaved across targets, or reversed"""
     variables = collections.OrderedDict()
-    i = 0
+    per_sid = []
     for sid, mods in streams.items():
         variables[sid] = DataVar(sid, {})
-        for mod, tests in mods.items():
-            for test, params in tests.items():
-                i += 1
-                variables[f'qc_{i}'] = DataVar(f'qc_{i}', {
-                    'ioos_qc_module': mod, 'ioos_qc_test': test, 'ioos_qc_target': sid,
-                    'ioos_qc_config': ConfText('<json attr>', 'json', params if params is not None else {}),
-                })
+        per_sid.append([(sid, mod, test, params) for mod, tests in mods.items() for test, params in tests.items()])
+    if order == 'grouped':
+        entries = [e for lst in per_sid for e in lst]
+    elif order == 'reversed':
+        entries = [e for lst in per_sid for e in lst][::-1]
+    else:
+        entries = []
+        for k in range(max(len(x) for x in per_sid)):
+            for lst in per_sid[::-1]:
+                if k < len(lst):
+                    entries.append(lst[k])
+    for i, (sid, mod, test, params) in enumerate(entries, 1):
+        variables[f'qc_{i}'] = DataVar(f'qc_{i}', {
+            'ioos_qc_module': mod, 'ioos_qc_test': test, 'ioos_qc_target': sid,
+            'ioos_qc_config': ConfText('<json attr>', 'json', params if params is not None else {}),
+        })
     return DatasetStub(variables, {})
 
 
@@ -168,12 +181,15 @@ def run(ck):
                 check_outcome(ck, label, name, lname, cname, out, want)
         # per-variable xarray attributes (single, windowless context)
         if len(contexts) == 1 and contexts[0]['window'] is None and contexts[0]['region'] is None:
-            ds = variable_attr_dataset(contexts[0]['streams'])
             want = expected_calls(contexts, 'stream-mapping')
-            for cname, src in (('xarray-variable-attrs', ds), ('xarray-file-variable-attrs', ConfText('/some/file.nc', 'path-nc', ds))):
-                out = r.run(Config, [src])
-                ck.count(1, distinct=(name, 'variable-attrs', cname))
-                check_outcome(ck, f'Config({name} via {cname})', name, 'stream-mapping', cname, out, want)
+            for order in ('grouped', 'interleaved', 'reversed'):
+                ds = variable_attr_dataset(contexts[0]['streams'], order)
+                for cname, src in (('xarray-variable-attrs', ds), ('xarray-file-variable-attrs', ConfText('/some/file.nc', 'path-nc', ds))):
+                    if order != 'grouped':
+                        cname = f'{cname}-{order}'
+                    out = r.run(Config, [src])
+                    ck.count(1, distinct=(name, 'variable-attrs', cname))
+                    check_outcome(ck, f'Config({name} via {cname})', name, 'stream-mapping', cname, out, want)
     # Config built from Call objects / another Config / a list of ContextConfigs: same calls
     base_src = {'contexts': [ctx_dict(c) for c in logical_configs()['two-contexts']]}
     want = expected_calls(logical_configs()['two-contexts'], 'contexts')
